@@ -28,7 +28,8 @@ def loop_ordinals(fnode):
 
     def visit(node):
         for child in ast.iter_child_nodes(node):
-            if isinstance(child, (ast.For, ast.While, ast.AsyncFor)):
+            if isinstance(child, (ast.For, ast.While, ast.AsyncFor)) or \
+                    (isinstance(child, ast.ListComp) and any(isinstance(x, ast.Await) for x in ast.walk(child))):
                 out[id(child)] = n[0]
                 n[0] += 1
             visit(child)
@@ -37,6 +38,8 @@ def loop_ordinals(fnode):
 
 
 def header_of(s) -> str:
+    if hasattr(s, "_comp_src"):
+        return "comp " + s._comp_src
     if isinstance(s, ast.While):
         return "while " + ast.unparse(s.test)
     pre = "async for " if isinstance(s, ast.AsyncFor) else "for "
@@ -75,7 +78,7 @@ def loop_handler(ip, s, fr: Frame, it):
     if ords is None:
         ords = loop_ordinals(top.node)
         ip._loop_ords = ords
-    k = ords.get(id(s))
+    k = ords.get(getattr(s, "_comp_id", id(s)))
     if k is None:
         raise Unsupported(f"loop at line {s.lineno} is outside the function under contract")
     inv = c.loops.get(k) if c is not None else None
@@ -288,3 +291,86 @@ def install(lib):
     meth[("map", "values")] = VBuiltin("map.values", m_values)
     meth[("map", "get")] = VBuiltin("map.get", m_get)
     meth[("map", "pop")] = VBuiltin("map.pop", m_pop)
+
+
+# ---------------------------------------------------------------------- symbolic sequence operations
+def _seq(ip, s):
+    return ip.st.heap[(s.ref, "seq")]
+
+
+def _elem_term(ip, s, v):
+    return coerce(ip, v, s.elem) if s.elem[0] in ("opaque", "func") else term_of(ip.unopt(v) if isinstance(v, VOpt) else v)
+
+
+def seq_append(ip, args, kwargs, node):
+    s, x = args
+    ip.st.heap[(s.ref, "seq")] = z3.Concat(_seq(ip, s), z3.Unit(_elem_term(ip, s, x)))
+    return VNone
+
+
+def seq_insert(ip, args, kwargs, node):
+    s, i, x = args
+    cur = _seq(ip, s)
+    n = z3.Length(cur)
+    idx = i.term
+    # list.insert clamps the index into [0, len] (negative indices count from the end)
+    idx = z3.If(idx < 0, z3.If(idx + n < 0, 0, idx + n), z3.If(idx > n, n, idx))
+    ip.st.heap[(s.ref, "seq")] = z3.Concat(z3.SubSeq(cur, 0, idx), z3.Unit(_elem_term(ip, s, x)), z3.SubSeq(cur, idx, n - idx))
+    return VNone
+
+
+def seq_pop(ip, args, kwargs, node):
+    s = args[0]
+    cur = _seq(ip, s)
+    n = z3.Length(cur)
+    if not ip.spec_mode and ip.st.branch(n == 0):
+        raise_("IndexError", "pop from empty list")
+    if len(args) > 1:
+        idx = args[1].term
+        if not ip.spec_mode and ip.st.branch(z3.Or(idx >= n, idx < -n)):
+            raise_("IndexError", "pop index out of range")
+        idx = z3.If(idx < 0, idx + n, idx)
+    else:
+        idx = n - 1
+    x = cur[idx]
+    ip.st.heap[(s.ref, "seq")] = z3.Concat(z3.SubSeq(cur, 0, idx), z3.SubSeq(cur, idx + 1, n - idx - 1))
+    return wrap(s.elem, x) if s.elem[0] not in ("obj", "symobj") else VObj(s.elem[1], x)
+
+
+def seq_getitem(ip, s, idx):
+    cur = _seq(ip, s)
+    n = z3.Length(cur)
+    i = idx.term
+    if not ip.spec_mode and ip.st.branch(z3.Or(i >= n, i < -n)):
+        raise_("IndexError")
+    i = z3.If(i < 0, i + n, i)
+    x = cur[i]
+    return wrap(s.elem, x) if s.elem[0] not in ("obj", "symobj") else VObj(s.elem[1], x)
+
+
+def seq_slice(ip, s, lo, hi):
+    """spec-only: s[lo:hi] as a new sequence value"""
+    cur = _seq(ip, s)
+    n = z3.Length(cur)
+    a = lo.term if lo is not None else z3.IntVal(0)
+    b = hi.term if hi is not None else n
+    ref = ip.st.new_ref()
+    ip.st.heap[(ref, "seq")] = z3.SubSeq(cur, a, b - a)
+    return VSeq(ref, s.elem)
+
+
+def seq_len(ip, s):
+    return VInt(z3.Length(_seq(ip, s)))
+
+
+_install_maps = install
+
+
+def install(lib):  # noqa: F811
+    _install_maps(lib)
+    meth = lib["__methods__"]
+    meth[("seq", "append")] = VBuiltin("list.append", seq_append)
+    meth[("seq", "insert")] = VBuiltin("list.insert", seq_insert)
+    meth[("seq", "pop")] = VBuiltin("list.pop", seq_pop)
+    lib["__getitem__"]["seq"] = seq_getitem
+    lib["__slice__"]["seq"] = seq_slice
